@@ -37,6 +37,10 @@ type config struct {
 	name    string
 	desc    string
 	prelock bool
+	// tight: a stricter description an administrator installs while joins
+	// are under way (the "tighten" thread): the same rules plus an expiry in
+	// the past (or, where the description has an expiry already, max-clients 2)
+	tight string
 	// reference
 	max                int
 	open               bool // inside the validity window
@@ -49,7 +53,7 @@ type config struct {
 func configs() []config {
 	now := vtime.Base
 	ts := func(d time.Duration) string { return now.Add(d).Format(time.RFC3339Nano) }
-	return []config{
+	cs := []config{
 		{name: "plain", desc: `{` + usersJSON + `}`, open: true},
 		{name: "locked", desc: `{` + usersJSON + `}`, prelock: true, open: true},
 		{name: "max1", desc: `{"max-clients":1,` + usersJSON + `}`, max: 1, open: true},
@@ -62,6 +66,14 @@ func configs() []config {
 		{name: "autokick", desc: `{"autokick":true,` + usersJSON + `}`, open: true, autokick: true},
 		{name: "autolock+autokick", desc: `{"autolock":true,"autokick":true,` + usersJSON + `}`, open: true, autolock: true, autokick: true},
 	}
+	for i := range cs {
+		if strings.Contains(cs[i].desc, `"expires"`) {
+			cs[i].tight = `{"max-clients":2,` + cs[i].desc[1:]
+		} else {
+			cs[i].tight = `{"expires":"` + ts(-time.Minute) + `",` + cs[i].desc[1:]
+		}
+	}
+	return cs
 }
 
 type admission struct {
@@ -128,6 +140,20 @@ func newWorld(cfg config) *world {
 		if cfg.autokick && ops == 0 {
 			w.fail("autokick/non-op-admitted-without-operator", fmt.Sprintf("non-operator %s was admitted to an autokick group with no operator present (members %v)", c.ID, members))
 		}
+		// the description in force at this instant (it may have been replaced
+		// since the execution began)
+		fmax, fnb, fexp, fkick := g.VerifInForce()
+		now := vtime.Now()
+		switch {
+		case fmax > 0 && len(members) > fmax:
+			w.fail("in-force/non-op-admitted-to-full-group", fmt.Sprintf("non-operator %s was admitted as member number %d while the description the group holds at that instant says max-clients %d (the decision was taken from a description that had been replaced)", c.ID, len(members), fmax))
+		case fexp != nil && fexp.Before(now):
+			w.fail("in-force/non-op-admitted-after-expiry", fmt.Sprintf("non-operator %s was admitted while the description the group holds at that instant expired at %v (the decision was taken from a description that had been replaced)", c.ID, fexp.Sub(vtime.Base)))
+		case fnb != nil && fnb.After(now):
+			w.fail("in-force/non-op-admitted-before-opening", fmt.Sprintf("non-operator %s was admitted while the description the group holds at that instant is not open yet", c.ID))
+		case fkick && ops == 0:
+			w.fail("in-force/non-op-admitted-without-operator", fmt.Sprintf("non-operator %s was admitted with no operator present while the description in force has autokick", c.ID))
+		}
 		if cfg.autolock && ops == 0 {
 			w.fail("autolock/non-op-admitted-without-operator", fmt.Sprintf("non-operator %s was admitted to an autolock group after its last operator had left (members %v)", c.ID, members))
 		}
@@ -169,7 +195,7 @@ func menu(cfg config) []thread {
 	m := []thread{
 		join("carol", "c", "carol"),
 		join("dave", "d", "dave"),
-		join("dup", "b", "carol"), // same id as the pre-joined bob
+		join("dup", "b", "carol"),  // same id as the pre-joined bob
 		join("dupop", "b", "oper"), // an operator's credentials under bob's id: refused, and must leave no trace
 		join("oper", "o", "oper"),
 		leave("alice"),
@@ -179,6 +205,11 @@ func menu(cfg config) []thread {
 	}
 	// reload with a stricter description
 	m = append(m, thread{"reload", func(w *world) { group.Add("g", nil) }})
+	// an administrator installs a stricter description and the server notices it
+	m = append(m, thread{"tighten", func(w *world) {
+		glife.WriteGroup("g", cfg.tight)
+		group.Add("g", nil)
+	}})
 	if cfg.expires > 0 {
 		// the expiry instant passes
 		m = append(m, thread{"clock-passes-expiry", func(w *world) { vtime.Advance(2 * cfg.expires) }})
@@ -572,7 +603,7 @@ func main() {
 		a := agg[cfgname]
 		if a == nil {
 			s.Name = "sched/" + cfgname
-			s.Bound += fmt.Sprintf(" x all pairs and selected triples of %d thread bodies", 9)
+			s.Bound += fmt.Sprintf(" x all pairs and selected triples of %d thread bodies", len(menu(configs()[0])))
 			agg[cfgname] = &s
 			continue
 		}
@@ -598,6 +629,9 @@ func main() {
 	}
 	if o.Shard == 0 && core.Want("protocol") {
 		res.AddSub(redirectCheck(res))
+	}
+	if o.Shard == 1%o.Shards && core.Want("subgroup") {
+		res.AddSub(seqx.Explore(subgroupConfig(), res))
 	}
 	glife.Cleanup()
 	sig.Cleanup()
@@ -648,6 +682,18 @@ func replay(path string) {
 			fmt.Println("replay: no violation")
 			return
 		}
+	}
+	if c := subgroupConfig(); c.Name == a.Replay.Config {
+		ops := make([]seqx.Op, len(a.Replay.Ops))
+		for i, x := range a.Replay.Ops {
+			ops[i] = x
+		}
+		if v := seqx.Replay(c, ops); v != nil {
+			fmt.Printf("VIOLATION property=C10 replay=%s\n  %s\n", path, v.What)
+			os.Exit(1)
+		}
+		fmt.Println("replay: no violation")
+		return
 	}
 	fmt.Println("unknown artefact")
 	os.Exit(2)
